@@ -60,11 +60,13 @@ def _try(fn):
 def observe_lib(lib, names, is_module, mod=None):
     """Everything observable about one library, as plain data (also produced by the child process)."""
     if is_module:
-        n = _try(lambda: len(mod._module_library))
+        # the module-level library is read through the public module functions only; the instance behind them is
+        # looked up (for the copy-probe) without assuming how the module stores it
+        n = _try(lambda: len(mod.itemize()))
         getname = mod.get_tag_name
         itemize = mod.itemize
         look = lambda name: getattr(mod, name)          # noqa
-        inner = mod._module_library
+        inner = next((v for v in vars(mod).values() if isinstance(v, mod.TagLibrary)), None)
     else:
         n = _try(lambda: len(lib))
         getname = lambda i: lib.get_tag_name(i)         # noqa
@@ -94,6 +96,8 @@ def observe_lib(lib, names, is_module, mod=None):
     obs['by_name'] = by_name
 
     def probe():
+        if inner is None:
+            return 'no-instance'
         c = copy.deepcopy(inner)
         c.add_tag(PROBE)
         return [getattr(c, PROBE), c.get_tag_name(len(c) - 1), len(c)]
@@ -137,7 +141,7 @@ def judge(obs, acc, is_module, who):
             continue        # a name that is not a tag: whatever the object model answers is not our business
         if got != want:
             raise Violation(f'{who}: lookup of tag {name!r} by name', expected=want, observed=got)
-    if obs['probe'] != [n, PROBE, n + 1]:
+    if obs['probe'] != [n, PROBE, n + 1] and obs['probe'] != 'no-instance':
         raise Violation(f'{who}: the library\'s own operations no longer work (probe add_tag on a copy)',
                         expected=[n, PROBE, n + 1], observed=obs['probe'])
 
